@@ -556,7 +556,7 @@ def main():
     if a[0] == "--setup":
         return do_setup()
     if a[0] == "--list":
-        for p in sorted(glob.glob(os.path.join(VERIF, "props", "C*.json"))):
+        for p in sorted(p for p in glob.glob(os.path.join(VERIF, "props", "C*.json")) if not p.endswith(".findings.json")):
             print(os.path.basename(p)[:-5])
         return 0
     pid = a[0]
